@@ -243,4 +243,30 @@ theorem connect_id_source :
     CedarGen.FactsCCB.connectIdSources.all
       (fun s => ["crypto/rand.Read", "encoding/hex.EncodeToString", "fmt.Errorf"].contains s) = true := by decide
 
+/-- the non-cryptographic uses of `math/rand` in ccb/: the shuffle of the broker order and the
+    jitter of the listener's reconnect delay -/
+def declaredMathRand : List (String × String) := [("listener.go", "Int63n"), ("requester.go", "Shuffle")]
+
+/-- **connect_id_origins** ("fresh, unguessable" on every path that produces a connect id, not only
+    inside the function named `GenerateConnectID`). Regenerated table: every value ccb/ puts on the
+    wire as a request's / hello's ClaimId, and every value it compares a peer's hello against, is
+    traced back through local definitions and call arguments to where it was made.
+    (1) every origin is a call of `GenerateConnectID` or the id read from a received ad (the
+        listener echoing the requester's id);
+    (2) on the requesting side (requester.go, nested.go, outbound.go) it is always `GenerateConnectID`;
+    (3) the table sees the three generating sites (`dialOne`, `resolveContact`, `OutboundConnect`)
+        and both kinds of use, so (1)–(2) are not vacuous;
+    (4) `math/rand` is used in ccb/ only for the declared non-cryptographic purposes.
+    Inlining an id generator (e.g. `math/rand.Read` + hex) at a call site breaks (1), (2) and (4). -/
+theorem connect_id_origins :
+    CedarGen.FactsCCB.connectIdOrigins.all (fun x => x.2.2.2.1 == "GenerateConnectID" || x.2.2.2.1 == "peer") = true ∧
+    (CedarGen.FactsCCB.connectIdOrigins.filter (fun x => x.1 == "requester.go" || x.1 == "nested.go" || x.1 == "outbound.go")).all
+      (fun x => x.2.2.2.1 == "GenerateConnectID") = true ∧
+    CedarGen.FactsCCB.connectIdOrigins.contains ("requester.go", "dialStandard", "wire", "GenerateConnectID", "dialOne") = true ∧
+    CedarGen.FactsCCB.connectIdOrigins.contains ("requester.go", "acceptReversed", "match", "GenerateConnectID", "dialOne") = true ∧
+    CedarGen.FactsCCB.connectIdOrigins.contains ("requester.go", "proxyRequestOnStream", "wire", "GenerateConnectID", "resolveContact") = true ∧
+    CedarGen.FactsCCB.connectIdOrigins.contains ("requester.go", "proxyRequestOnStream", "match", "GenerateConnectID", "dialOne") = true ∧
+    CedarGen.FactsCCB.connectIdOrigins.contains ("outbound.go", "OutboundConnect", "wire", "GenerateConnectID", "OutboundConnect") = true ∧
+    CedarGen.FactsCCB.mathRandUses.all (fun u => declaredMathRand.contains (u.1, u.2.2)) = true := by decide
+
 end Cedar.C20
